@@ -60,6 +60,18 @@ pub enum Bop {
     Or,
 }
 impl Bop {
+    /// binding power in the repository's Pratt parser (get_infix_precedence)
+    pub fn prec(&self) -> u32 {
+        match self {
+            Bop::Or => 3,
+            Bop::And => 4,
+            Bop::Eq | Bop::Ne => 5,
+            Bop::Lt | Bop::Le | Bop::Gt | Bop::Ge => 6,
+            Bop::Add | Bop::Sub => 7,
+            Bop::Mul | Bop::Div | Bop::Mod => 8,
+            Bop::Pow => 9,
+        }
+    }
     pub fn sym(&self) -> &'static str {
         match self {
             Bop::Add => "+",
@@ -1199,6 +1211,9 @@ pub struct Layout {
     /// with `extra_parens`: do NOT parenthesise the right-hand side of a record-pattern `let`
     /// (known finding C16-parenthesised-record-pattern-rhs)
     pub keep_record_let_rhs_bare: bool,
+    /// drop the parentheses of nested binary operations wherever the language's precedence and
+    /// left associativity make them redundant (`(a ^ b) ^ c` -> `a ^ b ^ c`, `a + (b * c)` -> `a + b * c`)
+    pub minimal_parens: bool,
 }
 
 /// Wrap a scalar `dsp` body B as `{ let gate_pre = mem(now)  let gv = B  if (now > K) { gv + mem(gv) } else { gv } }`: the
@@ -1346,9 +1361,21 @@ fn render_e_inner(e: &E, lay: &Layout, level: usize, out: &mut String, cn: &mut 
         E::Lit(t) => out.push_str(t),
         E::Var(n) => out.push_str(n),
         E::Bin(op, a, b) => {
-            render_sub(a, lay, level, out, cn);
+            // all binary operators are left associative; a nested operation needs no parentheses on
+            // the left when it binds at least as tightly, on the right when it binds strictly tighter
+            let bare_l = lay.minimal_parens && !lay.extra_parens && matches!(&**a, E::Bin(o2, ..) if o2.prec() >= op.prec());
+            let bare_r = lay.minimal_parens && !lay.extra_parens && matches!(&**b, E::Bin(o2, ..) if o2.prec() > op.prec());
+            if bare_l {
+                render_e_inner(a, lay, level, out, cn);
+            } else {
+                render_sub(a, lay, level, out, cn);
+            }
             let _ = write!(out, " {} ", op.sym());
-            render_sub(b, lay, level, out, cn);
+            if bare_r {
+                render_e_inner(b, lay, level, out, cn);
+            } else {
+                render_sub(b, lay, level, out, cn);
+            }
         }
         E::Neg(a) => {
             out.push('-');
